@@ -3,7 +3,7 @@
 import json, os, subprocess
 V = os.path.dirname(os.path.dirname(os.path.abspath(__file__)))
 
-HOOK_COMMITS = ["c3d733f"]
+HOOK_COMMITS = ["c3d733f", "14b2aa7"]
 
 CHECKS = {
  "C01": dict(cat="model_checking", engine="kernel", design="5 C01, 3.1",
@@ -26,6 +26,38 @@ CHECKS = {
    technique="Kubernetes ownership rule WSelects(kind, workload, labels) in Filters.tla; every set of up to 2 (quick) / 3 (thorough) workloads per kind built as real typed objects, the real PodsFilter/ServicesFilter/NodeFilter/InvolvedFilter/SelectorMatchFilter evaluated on all candidate objects and judged by TLC",
    text="Exhaustive over workloads in 2 namespaces with selectors {nil, empty, one label, two labels, In, NotIn, Exists} (map selectors for services and replication controllers), two template label sets, same and different names across namespaces, for all seven workload kinds; plus ingress backends, node, involved-object and selector-match filters. TLC compares every recorded verdict with the reference rule.",
    note="Trusted: as C17. Deviations confined to replication-controller sources are the known finding D6 (KNOWN-FINDING); every other kind is a violation. Workload filters are only constrained on pods (services filter: on services)."),
+ "C05": dict(cat="model_checking", engine="tree", design="5 C05, 3.3, 4.3",
+   technique='trace validation: every line recorded from the real controller/publisher/subscription goroutines is one step of trace/TreeTrace.tla, whose state holds for each subscription the published-but-not-taken backlog, the event in hand and the FIFO outbox; order, exactly-once, fan-out completeness and cache-not-older are evaluated at every step',
+   text="Seeded Mode C scenarios: a real controller on the fake API server, trees of Subscribe/Clone (and the other constructors) up to depth 4 created at random positions of a paced stream (<= 20 events unacknowledged), perturbed schedules. TLC replays each trace: a subscription may only take the head of its publisher's backlog (order-in), a consumer only the head of the outbox (order / recv-unexplained), a publisher may not run ahead of a child by more than the one un-logged hand-off (lost-in-fanout), nothing may remain in flight at quiescence, and the controller cache read after a receipt is never older than the event.",
+   note="Trusted: TLC, the hook placement discipline (log after the own state change, before publishing it; guarded by the verif tag), the harness' consumers/observers, the stop-the-world quiescence barrier. Scenario choice is seeded (VERIF_SEED); the oracle is not."),
+ "C06": dict(cat="model_checking", engine="tree", design="5 C06, 3.3",
+   technique='trace validation with the CacheKernel reference embedded: TreeTrace.tla tracks every private cache through the logged sync/update/refilter inputs, checks each emitted batch against the kernel semantics, and at quiescence requires cache = Filtered(parent cache, last filter) for every ready filter node without drops above it',
+   text="Scenarios with filtered subscriptions and clones (immediate and deferred, nested), refilters at random points relative to readiness and in-flight events, parent updates that move objects in and out of the filter. Every cache.sync/cache.update/cache.list line of every cache actor is judged against the reference semantics, every fsub.updated/fsub.out line against the cache's delta, and every quiescence snapshot against the filter applied to the parent's content.",
+   note="Trusted: TLC, the hook placement discipline (log after the own state change, before publishing it; guarded by the verif tag), the harness' consumers/observers, the stop-the-world quiescence barrier. Scenario choice is seeded (VERIF_SEED); the oracle is not."),
+ "C07": dict(cat="model_checking", engine="tree", design="5 C07, 3.3",
+   technique="trace validation: each Refilter is the lines fsub.refilter -> cache.list(parent) -> cache.filter -> cache.sync -> fsub.refiltered -> fsub.out*, judged by TreeTrace.tla with the kernel semantics (exact membership delta, nothing for an unchanged key) and the rule 'reported unchanged => same meaning'",
+   text="Refilter-heavy scenarios over a 9-filter family (equal by value but distinct instances, overlapping, disjoint, accept-all, accept-none, non-comparable FN, comparable shells around different FNs). TLC requires the events of each refilter to be exactly the kernel's delta between the cache and the newly filtered parent listing, all of them emitted in order, none when the filter is reported unchanged (which in turn requires equal meaning), and the quiescent content to be the filtered parent content (so A->B->A restores).",
+   note="Trusted: TLC, the hook placement discipline (log after the own state change, before publishing it; guarded by the verif tag), the harness' consumers/observers, the stop-the-world quiescence barrier. Scenario choice is seeded (VERIF_SEED); the oracle is not."),
+ "C08": dict(cat="model_checking", engine="tree", design="5 C08, 3.3",
+   technique="trace validation of the readiness state machine: TreeTrace.tla carries parent-ready / pending / ready / filter-supplied per filter node and the controller's first-sync flag; ready, pready, refilter lines must be enabled spec steps and the logged flags must equal the spec's",
+   text='Scenarios with gated first lists, nodes created before and after readiness, Refilter(equal/new) before and after the parent is ready, immediate and deferred variants at every depth. TLC rejects: controller ready before a sync, publication before ready, a filter node ready before its parent or (deferred) before a filter was supplied or with a cache that is not the filtered parent listing, an event received or a monitor callback before Ready(), a cache read at the moment Ready() is observed that is not a listing the cache actor produced.',
+   note="Trusted: TLC, the hook placement discipline (log after the own state change, before publishing it; guarded by the verif tag), the harness' consumers/observers, the stop-the-world quiescence barrier. Scenario choice is seeded (VERIF_SEED); the oracle is not."),
+ "C10": dict(cat="model_checking", engine="tree", design="5 C10, 4.3",
+   technique='trace validation with occupancy-window rule: a drop line is a spec step only if the outbox was full when the event came in; stalled, pausing and slow consumers are scripted by the driver; healthy siblings and the controller cache are checked by the same order / completeness / currency rules',
+   text='Overflow scenarios with a fixed population that is guaranteed to overflow (never-reading and pausing consumers on plain and filtered subscriptions, under filtered clones, a monitor with a blocking handler) and stream lengths 0,1,99,100,101,250,400,700. TLC requires every drop to fall into a window that saw a full outbox, every healthy consumer to receive the complete sequence in order, nothing to be stuck at quiescence in front of a reading consumer or a library actor, the controller cache to equal the server, driver API calls not to block, and shutdown to complete.',
+   note="Trusted: TLC, the hook placement discipline (log after the own state change, before publishing it; guarded by the verif tag), the harness' consumers/observers, the stop-the-world quiescence barrier. Scenario choice is seeded (VERIF_SEED); the oracle is not."),
+ "C11": dict(cat="model_checking", engine="tree", design="5 C11, 3.3",
+   technique='trace validation of the cascade: TreeTrace.tla derives the tree from the pub.new/pub.subscribe/fsub.new/mon.new lines; a *.stopping line is a spec step only below a node the driver closed (or below a stopped controller); at quiescence everything below a closed node must be stopping, everything else must keep passing events',
+   text='Scenarios that close random nodes (subscriptions, filtered subscriptions, clones, filtered clones, monitors) mid-stream, during refilters and before readiness, then continue the stream; finally the root is closed. TLC rejects a stop outside a closed subtree, a descendant still alive at the next quiescence, an Events() channel closed before its buffered events were taken, and any order/completeness deviation of the surviving nodes.',
+   note="Trusted: TLC, the hook placement discipline (log after the own state change, before publishing it; guarded by the verif tag), the harness' consumers/observers, the stop-the-world quiescence barrier. Scenario choice is seeded (VERIF_SEED); the oracle is not."),
+ "C12": dict(cat="model_checking", engine="tree", design="5 C12",
+   technique='trace validation of termination observations: Close() latency, Done() of every node, goroutine census restricted to library frames, results of every API call after Done() are trace lines with no spec action when they report a hang, a leak, a blocked or failed call',
+   text="At the end of every scenario (mixed, close and overflow variants) the root is closed: Close() must return within 5 s, every node's Done() must close, every consumer must see its Events() closed, every goroutine with a library frame must be gone, and Subscribe*/Clone*/Refilter/List/Get/Close on every node must return a result or ErrNotRunning. (Shutdown-point enumeration with other triggers is in the controller family.)",
+   note="Trusted: TLC, the hook placement discipline (log after the own state change, before publishing it; guarded by the verif tag), the harness' consumers/observers, the stop-the-world quiescence barrier. Scenario choice is seeded (VERIF_SEED); the oracle is not."),
+ "C16": dict(cat="model_checking", engine="tree", design="5 C16, 3.3",
+   technique="trace validation of the callback protocol: handler entry/exit lines are spec steps of the monitor node in TreeTrace.tla (initialize once and first, with a listing the cache actor produced at or after readiness; each other callback takes the head of the monitor's subscription outbox and matches its type and object; entries and exits alternate; none after Done())",
+   text='Monitor scenarios with healthy, slow and blocking handlers, closes at random points relative to readiness and in-flight events. TLC rejects overlapping callbacks, a callback that is not the next undelivered event, a callback before OnInitialize or before readiness or after Done(), an OnInitialize whose argument is not a cache listing, and events left undelivered at quiescence.',
+   note="Trusted: TLC, the hook placement discipline (log after the own state change, before publishing it; guarded by the verif tag), the harness' consumers/observers, the stop-the-world quiescence barrier. Scenario choice is seeded (VERIF_SEED); the oracle is not."),
 }
 
 NOT_YET = {
@@ -67,6 +99,8 @@ def main():
              "serves_properties": ["C01", "C02"], "kind_free_text": "TLC model checking of the cache kernel + exhaustive transition recording from the real cache actor judged by TLC"},
             {"name": "filters", "path": "/verif/spec/Filters.tla /verif/spec/trace/FilterRecords.tla /verif/harness/filters.go /verif/tools/fam_filters.py",
              "serves_properties": ["C17", "C18", "C19"], "kind_free_text": "filter terms as data; real constructors/Accept/FiltersEqual recorded over an exhaustive term x object universe; TLC judges with the specification's evaluator"},
+            {"name": "tree", "path": "/verif/spec/trace/TreeTrace.tla /verif/spec/CacheKernel.tla /verif/harness/tree.go /verif/harness/tracer.go /verif/harness/fakeserver.go /verif/tools/fam_tree.py",
+             "serves_properties": ["C05", "C06", "C07", "C08", "C10", "C11", "C12", "C16"], "kind_free_text": "concurrent scenarios on the real code with verif hooks; every recorded line replayed as a step of the TLA+ trace specification by TLC"},
         ],
         "checks": checks,
         "not_applicable": na,
